@@ -337,7 +337,7 @@ theorem kwRest_is (n0 : Bool) (l r : Expr) (rest : List Tok) (h8 : stopLE d 8 re
   unfold pKwRest
   simp only []
   unfold pKwBody
-  simp only [hu, hm, h1]
+  simp only [hu, hm, h1, Bool.false_eq_true, if_false]
   simpa using ht
 
 theorem cont9_kw (k : KwKind) (n0 : Bool) (l r : Expr) (hk : k ≠ .in_)
